@@ -6,7 +6,7 @@
    is refuted by C10_old_*_refuted. *)
 From Coq Require Import List Arith Bool.
 Import ListNotations.
-From SygmaV Require Import Model.C10 Proofs.C10.
+From SygmaV Require Import Model.C10 Proofs.C10 Proofs.C10_Conc.
 
 (* no_fatal_unlock + free_at_end (+ never blocks on itself): every process kind x every outcome *)
 Theorem C10_no_fatal_unlock_free_at_end : forall k o, feasible k o = true ->
@@ -103,6 +103,73 @@ Theorem C10_session_ok_sound : forall k l, session_ok k l = true ->
 Proof. exact session_ok_sound. Qed.
 Print Assumptions C10_session_ok_sound.
 
+(* the judge of sequences also demands every share access under the lock, and means it *)
+Theorem C10_sequence_access_under_lock : forall ss, all_feasible ss = true ->
+  locked_access false (sessions_events New ss) = true.
+Proof. exact sequence_access. Qed.
+Print Assumptions C10_sequence_access_under_lock.
+
+Theorem C10_sequence_ok_sound : forall l, sequence_ok l = true ->
+  mrun false l = MOk false /\ count is_L l = count is_U l /\
+  (forall l1 e l2, l = l1 ++ e :: l2 -> (e = Get \/ e = Store) -> held_after false l1 = true).
+Proof. exact sequence_ok_sound. Qed.
+Print Assumptions C10_sequence_ok_sound.
+
+(* Retried attempts: tss.Coordinator runs a retryable process (the signing kinds, and only them) a
+   second time on the same object after a retryable failure.  The share is read once, in the
+   constructor, under the lock; the second Run neither locks nor reads. *)
+Theorem C10_rerun_ledger : forall k, feasible k Rerun = true ->
+  session_events New k Rerun = [L; Get; U; RunBegin; RunEnd; RunBegin; RunEnd].
+Proof. exact rerun_events. Qed.
+Print Assumptions C10_rerun_ledger.
+
+Theorem C10_rerun_reads_under_lock_once : forall k, feasible k Rerun = true ->
+  session_ok k (session_events New k Rerun) = true /\
+  locked_access false (session_events New k Rerun) = true /\
+  count (fun e => match e with Get => true | _ => false end) (session_events New k Rerun) = 1.
+Proof. exact rerun_safe. Qed.
+Print Assumptions C10_rerun_reads_under_lock_once.
+
+Theorem C10_rerun_only_signing : forall k, feasible k Rerun = true -> is_signing k = true.
+Proof. exact rerun_only_signing. Qed.
+Print Assumptions C10_rerun_only_signing.
+
+(* Contention: sessions that OVERLAP on one store (threads = sessions of C10_serialised), under ANY
+   schedule that lets all of them come to their end - whoever had to wait for the lock, in whatever
+   order they got it: the merged ledger passes the judge (a Lock succeeds only on the free mutex,
+   Unlock / Get / Store only by the thread that holds it, the mutex is free at the end, locks =
+   unlocks, every thread's own events are guarded for its kind), and every thread's part of the
+   ledger is exactly the ledger of its session. *)
+Theorem C10_contention_ok_model : forall (ss : list (kind * outcome)) (sched : list nat),
+  all_feasible ss = true ->
+  let st0 := cinit (fun t => sessions_events New (plan_of ss t)) in
+  (forall t, rest (cexec sched st0) t = []) ->
+  contention_ok ss (ctrace sched st0) = true /\
+  (forall t k o, nth_error ss t = Some (k, o) -> proj t (ctrace sched st0) = session_events New k o).
+Proof. exact contention_ok_model. Qed.
+Print Assumptions C10_contention_ok_model.
+
+(* the same for the threads of C10_serialised in general: any plan, any schedule *)
+Theorem C10_merged_ledger_ok : forall (plan : nat -> list (kind * outcome)) (sched : list nat),
+  (forall t, all_feasible (plan t) = true) ->
+  let st0 := cinit (fun t => sessions_events New (plan t)) in
+  (forall t, rest (cexec sched st0) t = []) ->
+  merged_ok (ctrace sched st0) = true /\
+  (forall t, proj t (ctrace sched st0) = sessions_events New (plan t)).
+Proof. exact merged_ok_any_plan. Qed.
+Print Assumptions C10_merged_ledger_ok.
+
+(* what the merged judge means: free at the end, balanced, a Lock is taken only from the free
+   mutex, and every Unlock / read / write is done by the thread that holds the lock *)
+Theorem C10_merged_ok_sound : forall tr, merged_ok tr = true ->
+  owner_after None tr = None /\
+  count is_L (map snd tr) = count is_U (map snd tr) /\
+  (forall l1 t l2, tr = l1 ++ (t, L) :: l2 -> owner_after None l1 = None) /\
+  (forall l1 t e l2, tr = l1 ++ (t, e) :: l2 -> (e = Get \/ e = Store \/ e = U) ->
+     owner_after None l1 = Some t).
+Proof. exact merged_ok_sound. Qed.
+Print Assumptions C10_merged_ok_sound.
+
 (* The code as found: an ECDSA keygen whose coordinator stays silent unlocks an unlocked mutex
    (fatal), and a refused constructor-locking process leaks the lock so that the next session on
    that store blocks. *)
@@ -132,5 +199,22 @@ Example C10_nonvacuous :
   session_events New FrostSigning ConstructorFails = [L; Get; U] /\
   all_feasible_in [(Missing, (FrostSigning, ConstructorFails)); (Missing, (FrostKeygen, NeverTimeout));
                    (Corrupt, (EcdsaResharing, Refused)); (Readable, (EcdsaSigning, RanFailed))] = true /\
-  feasible_in Missing EcdsaSigning RanFailed = false /\ feasible EcdsaResharing ConstructorFails = false.
+  feasible_in Missing EcdsaSigning RanFailed = false /\ feasible EcdsaResharing ConstructorFails = false /\
+  feasible FrostSigning Rerun = true /\ feasible FrostKeygen Rerun = false.
+Proof. vm_compute. repeat split. Qed.
+
+(* Non-vacuity of the contention theorems: a FROST resharing holds the lock while a FROST signing
+   constructor and a FROST keygen constructor ask for it; the waiting threads stay
+   blocked (their steps leave no entry) until the holder's Stop, all threads finish, the ledger is
+   accepted; and a ledger in which the waiting thread reads the share without the lock is rejected. *)
+Example C10_contention_nonvacuous :
+  let ss := [(FrostResharing, NeverCancelled); (FrostSigning, RanFailed); (FrostKeygen, NeverTimeout)] in
+  let st0 := cinit (fun t => sessions_events New (plan_of ss t)) in
+  let sched := [0; 1; 2; 1; 0; 2; 0; 2; 1; 1; 2; 1; 1; 1; 1; 1] in
+  all_feasible ss = true /\
+  ctrace sched st0 = [(0, L); (0, Get); (0, U); (2, L); (2, U); (1, L); (1, Get); (1, U); (1, RunBegin); (1, RunEnd)] /\
+  rest (cexec sched st0) 0 = [] /\ rest (cexec sched st0) 1 = [] /\ rest (cexec sched st0) 2 = [] /\
+  contention_ok ss (ctrace sched st0) = true /\
+  contention_ok ss [(0, L); (0, Get); (1, Get); (0, U); (1, RunBegin); (1, RunEnd); (2, L); (2, U)] = false /\
+  merged_ok [(0, L); (0, U); (1, RunBegin); (1, RunEnd); (1, L)] = false.
 Proof. vm_compute. repeat split. Qed.
